@@ -286,6 +286,9 @@ static void run_elements(long &kcase, const std::vector<Cls> &classes, const Wor
 	Rng sel = setup_rng(5);
 	size_t nt = ctx.quick() ? 8 : 40, nq = ctx.quick() ? 6 : tq.size();
 	std::vector<Toy> pick; pick.push_back(ts.front()); pick.push_back(ts.back());
+	// always include the first two toy groups whose generator derivation rejects a candidate (0, 1, p-1):
+	// the retry loop of the canonical check is then exercised for every seed
+	{ size_t found = 0; for (auto &t : ts) { Z P(t.p), Q(t.q), K((t.p - 1) / t.q), cg; if (ref_canonical_g(cg, P, Q, K)) { pick.push_back(t); if (++found == 2) break; } } }
 	while (pick.size() < nt) pick.push_back(ts[sel.below(ts.size())]);
 	std::vector<Toy> pickq; pickq.push_back(tq.front()); pickq.push_back(tq.back());
 	while (pickq.size() < nq) pickq.push_back(tq[sel.below(tq.size())]);
